@@ -57,6 +57,7 @@ func main() {
 	base := conc.SharedDigest(conc.NewShared())
 	var gbase string
 	bodies := func() []func() string {
+		vsched.ResetGlobals() // every execution starts from the initial (cold) package-level state
 		sh = conc.NewShared()
 		gbase = vsched.GlobalsDigest()
 		var b []func() string
